@@ -399,7 +399,7 @@ Lemma step6_inv specs mg ns m (P : Z * list positive -> Prop) st o :
   (forall e, In e (snd (reconcile mg (list_nodes ns) m)) -> P e) ->
   inv6 P st -> inv6 P (step6 mg ns m st o).
 Proof.
-  intros Hmg Hcalc [Hapi Hcache]. destruct o as [hidden | s hidden | | s]; cbn [step6].
+  intros Hmg Hcalc [Hapi Hcache]. destruct o as [hidden | s hidden | | s | failed]; cbn [step6].
   - split; cbn [c_api c_cache].
     + generalize (c_api st) Hapi. induction (snd (reconcile mg (list_nodes ns) m)) as [|[k v] r IH]; intros api Ha e He; [now apply Ha|].
       simpl in He. refine (IH _ _ _ e He); [intros; apply Hcalc; now right|].
@@ -429,6 +429,12 @@ Proof.
     intros e He. apply apply6_In in He. destruct He as [-> | He]; [now apply Hd | now apply Hapi].
   - split; cbn [c_api c_cache]; [assumption | discriminate].
   - split; cbn [c_api c_cache]; [|assumption]. intros e He. apply Hapi. eapply premove_In; eauto.
+  - split; cbn [c_api c_cache].
+    + generalize (c_api st) Hapi. induction (snd (reconcile mg (list_nodes ns) m)) as [|[k v] r IH]; intros api Ha e He; [now apply Ha|].
+      simpl in He. refine (IH _ _ _ e He); [intros; apply Hcalc; now right|].
+      intros e' He'. destruct (existsb (Z.eqb k) failed); [now apply Ha|].
+      apply apply6_In in He'. destruct He' as [-> | He']; [apply Hcalc; now left | now apply Ha].
+    + intros c e [= <-]. apply Hcalc.
 Qed.
 
 Lemma fold_step6_inv specs mg ns m (P : Z * list positive -> Prop) ops : forall st,
